@@ -3,9 +3,15 @@
 package c02
 
 import (
+	"encoding/binary"
 	"encoding/json"
+	"fmt"
+	"io"
 	"os"
 	"testing"
+
+	"github.com/hujm2023/go-sms-protocol/cmpp"
+	"github.com/hujm2023/go-sms-protocol/smgp"
 
 	"pgregory.net/rapid"
 
@@ -75,6 +81,128 @@ func eval(t vk.TB, b *gen.Binding, v *ref.Vals) {
 	rec.Sample(b.Spec.Proto, ref.ToJ(b.Spec, v))
 	rec.ReportSeq(t, "layout-encode", gen.PCase{Vals: ref.ToJ(b.Spec, v)}, func() *vk.Violation { return gen.LayoutEncode(b, v) })
 	rec.ReportSeq(t, "layout-decode", gen.PCase{Vals: ref.ToJ(b.Spec, v)}, func() *vk.Violation { return gen.LayoutDecode(b, v) })
+	if gen.HasHexID(b.Spec) {
+		rec.Eval()
+		rec.Class("smgp_message_id_given_as_raw_octets")
+		rec.Report(t, "layout-rawid", gen.LayoutEncodeRawID(b, v))
+	}
+}
+
+func init() {
+	reg["layout-rawid"] = func(raw json.RawMessage) *vk.Violation {
+		b, v, e := fromCase(raw)
+		if e != nil {
+			return e
+		}
+		return gen.LayoutEncodeRawID(b, v)
+	}
+	reg["header-reader"] = func(raw json.RawMessage) *vk.Violation {
+		var c HdrCase
+		_ = json.Unmarshal(raw, &c)
+		return checkHeaderReader(c)
+	}
+}
+
+// HdrCase: twelve header octets (and some more) delivered to the stream-based header readers in pieces.
+type HdrCase struct {
+	Proto  string `json:"proto"` // cmpp | smgp
+	Data   string `json:"data_hex"`
+	Pieces []int  `json:"pieces"`        // sizes of the successive reads (the rest in one piece)
+	ErrEOF bool   `json:"data_with_eof"` // the last piece is returned together with io.EOF
+}
+
+type pieceReader struct {
+	data    []byte
+	pieces  []int
+	witheof bool
+}
+
+func (r *pieceReader) Read(p []byte) (int, error) {
+	if len(r.data) == 0 {
+		return 0, io.EOF
+	}
+	n := len(r.data)
+	if len(r.pieces) > 0 {
+		if r.pieces[0] < n {
+			n = r.pieces[0]
+		}
+		r.pieces = r.pieces[1:]
+	}
+	if n > len(p) {
+		n = len(p)
+	}
+	if n == 0 {
+		n = 1
+	}
+	copy(p, r.data[:n])
+	r.data = r.data[n:]
+	if len(r.data) == 0 && r.witheof {
+		return n, io.EOF
+	}
+	return n, nil
+}
+
+// checkHeaderReader: the header read from a stream equals the header the image carries (total length,
+// command id, sequence number at offsets 0, 4, 8), however the stream delivers the octets.
+func checkHeaderReader(c HdrCase) *vk.Violation {
+	data := vk.UnHex(c.Data)
+	r := &pieceReader{data: append([]byte{}, data...), pieces: append([]int{}, c.Pieces...), witheof: c.ErrEOF}
+	var l, cmd, seq uint32
+	var err error
+	pn := vk.Guarded("header-reader", c.Proto+"/hang", func() any { return c }, func() {
+		if c.Proto == "cmpp" {
+			var h cmpp.Header
+			h, err = cmpp.NewHeaderFromReader(r)
+			l, cmd, seq = h.TotalLength, uint32(h.CommandID), h.SequenceID
+		} else {
+			var h smgp.Header
+			h, err = smgp.NewHeaderFromReader(r)
+			l, cmd, seq = h.TotalLength, uint32(h.CommandID), h.SequenceID
+		}
+	})
+	if pn != "" {
+		return vk.Violf(c.Proto+".NewHeaderFromReader/panic", c, "panic\n%s", pn)
+	}
+	if len(data) < 12 {
+		if err == nil {
+			return vk.Violf(c.Proto+".NewHeaderFromReader/short-accepted", c, "%s.NewHeaderFromReader accepted a %d-octet stream", c.Proto, len(data))
+		}
+		return nil
+	}
+	if err != nil {
+		return vk.Violf(c.Proto+".NewHeaderFromReader/error", c, "%s.NewHeaderFromReader failed on a complete header delivered in pieces %v: %v", c.Proto, c.Pieces, err)
+	}
+	wl, wc, ws := binary.BigEndian.Uint32(data[0:]), binary.BigEndian.Uint32(data[4:]), binary.BigEndian.Uint32(data[8:])
+	if l != wl || cmd != wc || seq != ws {
+		return vk.Violf(c.Proto+".NewHeaderFromReader/value", c, "%s.NewHeaderFromReader with pieces %v: got (%#x, %#x, %#x), the stream carries (%#x, %#x, %#x)", c.Proto, c.Pieces, l, cmd, seq, wl, wc, ws)
+	}
+	return nil
+}
+
+func TestHeaderFromReader(t *testing.T) {
+	rapid.Check(t, func(t *rapid.T) {
+		c := HdrCase{Proto: rapid.SampledFrom([]string{"cmpp", "smgp"}).Draw(t, "proto"), ErrEOF: rapid.Bool().Draw(t, "eof")}
+		n := rapid.OneOf(rapid.IntRange(12, 30), rapid.IntRange(0, 30)).Draw(t, "len")
+		c.Data = vk.Hex(rapid.SliceOfN(rapid.Byte(), n, n).Draw(t, "data"))
+		switch rapid.IntRange(0, 4).Draw(t, "chunking") {
+		case 0: // all at once
+		case 1:
+			c.Pieces = []int{1, 1, 1, 1, 1, 1, 1, 1, 1, 1, 1, 1, 1}
+		case 2:
+			c.Pieces = []int{4, 4, 4}
+		case 3:
+			c.Pieces = []int{6, 3, 2, 1}
+		default:
+			c.Pieces = rapid.SliceOfN(rapid.IntRange(1, 7), 0, 12).Draw(t, "pieces")
+		}
+		rec.Eval()
+		if n >= 12 && len(c.Pieces) > 2 {
+			rec.NonTrivial("hdr", c.Proto, c.Data, fmt.Sprint(c.Pieces), c.ErrEOF)
+			rec.Class("header_from_stream_in_3+_pieces")
+		}
+		rec.Sample("header-reader", c)
+		rec.Report(t, "header-reader", checkHeaderReader(c))
+	})
 }
 
 func TestLayoutPerType(t *testing.T) {
